@@ -582,7 +582,7 @@ def _uses_tuple(x):
     return False
 
 
-def derive_one(R):
+def _derive_model_input(R):
     """recipe -> model input tree (or {"err": ...} when the statement does not compile at all)"""
     from sqlalchemy.dialects import sqlite
 
@@ -628,6 +628,17 @@ def derive_one(R):
     return {"in": [toks, [pack(n) for n in order], kinds, values, params, pc, procs]}
 
 
+def derive_one(R):
+    """recipe -> case fields.  {"in": tree} normally; {"err": ...} when the statement is rejected by the compiler
+    (bind name conflicts: dropped); {"in": [], "model": False} when the statement compiles but its model input
+    cannot be recovered on the current tree (tuple binds; anything unexpected, e.g. after a source change): such a
+    case still runs on the implementation under the oracle, it is only excluded from the model comparison"""
+    try:
+        return _derive_model_input(R)
+    except Exception as e:
+        return {"in": [], "model": False, "underivable": "%s: %s" % (type(e).__name__, str(e)[:200])}
+
+
 def derive(path):
     """runs in the impl interpreter; the recipes travel in a file (argv would be too long)"""
     import json
@@ -657,6 +668,8 @@ def _derive_cases(recs):
             c = {"in": d["in"], "recipe": r, "kind": kind}
             if d.get("model") is False:
                 c["model"] = False
+            if "underivable" in d:
+                c["underivable"] = d["underivable"]
             out.append(c)
     return out
 
@@ -908,6 +921,8 @@ def impl(c):
             obs.append([2])
         except TypeError:
             obs.append([3])
+        except Exception:  # anything else the implementation raises instead of reaching the driver
+            obs.append([9])
     return obs
 
 
